@@ -663,16 +663,20 @@ def replay(path):
 
 
 def setup():
-    """build everything every registered check needs (MANIFEST.setup_cmd)"""
+    """build what every claimed check needs (MANIFEST.setup_cmd); one property at a time so that a property whose
+    build is broken does not take the others down (its own check then reports the broken obligation)"""
     import translate
     tr = translate.regenerate()
     print('translator:', {m: v['error'] or 'ok' for m, v in tr.items()})
-    targets = ['VotelibAudit']
-    pdir = os.path.join(VERIF, 'harness', 'props')
-    for fn in sorted(os.listdir(pdir)):
-        if fn.startswith('C') and fn.endswith('.py'):
-            mod = importlib.import_module('props.' + fn[:-3])
-            targets += list(mod.LEAN_MODULES) + [f'vldriver_{mod.ID}']
-    ok, out = lake_build(sorted(set(targets)), timeout=7200)
-    print(out[-3000:])
-    return 0 if ok else 1
+    claimed = json.load(open(os.path.join(VERIF, 'harness', 'claimed.json')))
+    ok_all = True
+    ok, out = lake_build(['VotelibAudit'], timeout=7200)
+    for pid in claimed:
+        mod = importlib.import_module('props.' + pid)
+        t = time.time()
+        ok, out = lake_build(list(mod.LEAN_MODULES) + [f'vldriver_{mod.ID}'], timeout=7200)
+        print(f'{pid}: build {"ok" if ok else "FAILED"} in {time.time() - t:.0f}s', flush=True)
+        if not ok:
+            ok_all = False
+            print(out[-1500:])
+    return 0 if ok_all else 1
